@@ -380,6 +380,17 @@ class Kernel:
             raise OSError(errno.EBADF, "Bad file descriptor")
         self._event(pid, "fsync", fd.path)
 
+    def sys_fstat(self, fd: FD) -> int:
+        """fstat of a simulated descriptor: the current size of the file (it observes what other processes appended)."""
+        pid, flt = self._enter("fstat", fd.path, fd.pid)
+        if flt is not None and flt.kind == "kill":
+            self._die(pid)
+        if fd.closed:
+            raise OSError(errno.EBADF, "Bad file descriptor")
+        n = len(self.files.get(fd.path, b""))
+        self._event(pid, "fstat", fd.path, n)
+        return n
+
     def sys_stat(self, path) -> bool:
         p = self.norm(path)
         pid, flt = self._enter("stat", p)
@@ -623,6 +634,11 @@ class SimPath(pathlib.PurePosixPath):
 
     def is_dir(self):
         return False
+
+    def stat(self, *a, **kw):
+        import os as _os
+
+        return _os.stat(self)
 
     def resolve(self, strict=False):
         return type(self)(CURRENT.norm(self))
